@@ -2090,3 +2090,177 @@ def choice_restart_run(choices: list[Any], sweep: Any, which: Any) -> bool:
                 return True
             finally:
                 w.close()
+
+
+# ----------------------------------------------------------------------------------------------- two real worker threads (A-B-A-B)
+def two_thread_race_run(prop: str, workload: str, j_sym: Any, k1_sym: Any, k2_sym: Any, a_pick_sym: Any = 0, b_pick_sym: Any = 0,
+                        monitors: tuple[str, ...] = ("C04", "C02", "C02x", "C06"), compare: str = "reference", hold_sym: Any = None, hold_n_sym: Any = 0, max_k: int = 40) -> bool:
+    """Two worker threads with their own SQLite connections handle two different messages of the
+    step-j state concurrently under a deterministic scheduler with TWO switches: A runs until just
+    before its k1-th SQL statement (outside an open write transaction), then B runs until just
+    before its k2-th, then A runs to the end of its handler, then B does.  This is the A-B-A-B
+    shape that nesting a whole handler inside another cannot express.  j, k1, k2 and the picks of
+    the two messages are symbolic (decided in the main thread before the workers start)."""
+    import threading
+
+    with hx.Path("two_thread_race:%s:%s" % (prop, workload)) as P:
+        with hx.native():
+            w = World()
+            try:
+                wf = WORKLOADS[workload]()
+                spec = spec_of(wf)
+                w.submit(wf)
+                HOLD_TYPES = ["CompleteStage", "CompleteTask", "StartStage", "StartTask", "RunTask", "JumpToStage"]
+                hold_type = HOLD_TYPES[hx.pick(hold_sym, len(HOLD_TYPES))] if hold_sym is not None else None
+                hold_n = 1 + hx.pick(hold_n_sym, 3) if hold_sym is not None else 0
+
+                def held_row_id() -> Any:
+                    if hold_type is None:
+                        return None
+                    ins = [r_["id"] for r_ in w.qlog() if r_["op"] == "ins" and r_["q"] == "q" and r_["mtype"] == hold_type]
+                    return ins[hold_n - 1] if len(ins) >= hold_n else None
+
+                def visible() -> list[dict[str, Any]]:
+                    now = stubs.CLOCK.peek_ms()
+                    vis = [r for r in w.rows() if r["attempts"] < w.queue_max_attempts and r["deliver_ms"] // 1000 <= now // 1000
+                           and (r["lock_ms"] is None or r["lock_ms"] // 1000 < now // 1000)]
+                    vis.sort(key=lambda r: (r["deliver_at"], r["id"]))
+                    return vis
+
+                step = 0
+                raced = None
+                while step < MAX_STEPS:
+                    if not w.make_visible():
+                        break
+                    vis = visible()
+                    if not vis:
+                        break
+                    hid = held_row_id()
+                    rest = [r_ for r_ in vis if r_["id"] != hid]
+                    if raced is None and len(vis) >= 2 and hx.decide_eq(j_sym, step):
+                        cand = (rest[:3] if rest else vis[:3])
+                        arow = cand[hx.pick(a_pick_sym, len(cand))]
+                        others = [r_ for r_ in vis if r_["id"] != arow["id"]]
+                        bc = ([r_ for r_ in others if r_["id"] == hid] + [r_ for r_ in others if r_["id"] != hid])[:3]
+                        brow = bc[hx.pick(b_pick_sym, len(bc))]
+                        k1 = 1 + hx.pick(k1_sym, max_k)
+                        k2 = 1 + hx.pick(k2_sym, max_k)
+                        raced = _run_two_threads(w, arow, brow, k1, k2)
+                        step += 2
+                        continue
+                    if raced is None and rest:
+                        vis = rest
+                    w.deliver(vis[0]["id"])
+                    step += 1
+                w.processor._check_dlq()
+                snap = w.snapshot()
+                summ = summarize(snap)
+                if raced is None or not raced["switched"]:
+                    return True
+                what = "%s||%s" % (raced["a"], raced["b"])
+                P.reached("%s step %s k1=%s k2=%s" % (what, raced.get("step"), raced["at1"], raced["at2"]), {"workload": workload, "A": raced["a"], "B": raced["b"], "A_paused_before_statement": raced["at1"], "B_paused_before_statement": raced["at2"]})
+                info = {"workload": workload, "worker_A_handles": raced["a"], "worker_B_handles": raced["b"], "A_paused_before_its_statement": raced["at1"], "B_paused_before_its_statement": raced["at2"],
+                        "final": summ["stages"], "workflow": summ["workflow"], "errors": (w.handler_errors + raced["errors"])[:3]}
+                if raced["errors"] and any("scheduler" in e or "deadlock" in e for e in raced["errors"]):
+                    raise hx.HarnessError("two-thread scheduler: %s" % raced["errors"][:2])
+                if step >= MAX_STEPS:
+                    return P.fail("%s/two_threads/%s/%s/no_termination" % (prop, workload, what), info)
+                for m in monitors:
+                    bad = MONITORS[m](w, spec)
+                    if bad is not None:
+                        return P.fail("%s/two_threads/%s/%s/%s" % (prop, workload, what, bad[0]), {**info, "detail": bad[1]})
+                q = quiescent_ok(snap)
+                if q is not None:
+                    return P.fail("%s/two_threads/%s/%s/not_quiescent/%s" % (prop, workload, what, state_sig(summ)), {**info, "why": q})
+                if compare != "none":
+                    ref = reference(workload)
+                    rs = ref["summary"]
+                    if summ["workflow"] != rs["workflow"] or (compare in ("reference", "counts", "stages") and summ["stages"] != rs["stages"]):
+                        return P.fail("%s/two_threads/%s/%s/outcome_differs/%s" % (prop, workload, what, state_sig(summ)), {**info, "expected": rs["stages"]})
+                    if compare in ("reference", "counts"):
+                        a_, b_ = Counter((r, t) for r, t, _ in _ledger_view(w)), Counter((r, t) for r, t, _ in ref["ledger"])
+                        if a_ != b_:
+                            return P.fail("%s/two_threads/%s/%s/executions_differ" % (prop, workload, what), {**info, "extra": sorted((a_ - b_).elements())[:4], "missing": sorted((b_ - a_).elements())[:4]})
+                return True
+            finally:
+                HOOKS.on_statement = None
+                w.close()
+
+
+def _run_two_threads(w: World, arow: dict[str, Any], brow: dict[str, Any], k1: int, k2: int) -> dict[str, Any]:
+    """Deterministic two-thread schedule A..|B..|A(rest)|B(rest); a switch point inside an open
+    write transaction slips to the next statement outside one."""
+    import threading
+
+    cv = threading.Condition()
+    st: dict[str, Any] = {"turn": "A", "phase": 0, "n": {"A": 0, "B": 0}, "armed": {"A": False, "B": False}, "done": {"A": False, "B": False},
+                          "at1": None, "at2": None, "errors": [], "a": arow["message_type"], "b": brow["message_type"], "switched": False}
+    tl = threading.local()
+
+    def wait_turn(me: str) -> None:
+        with cv:
+            ok = cv.wait_for(lambda: st["turn"] == me, timeout=60)
+            if not ok:
+                st["errors"].append("scheduler: %s waited 60 s for its turn (deadlock)" % me)
+                st["turn"] = me
+
+    def give(to: str) -> None:
+        with cv:
+            st["turn"] = to
+            cv.notify_all()
+
+    def hook(conn: Any, sql: str) -> None:
+        me = getattr(tl, "me", None)
+        if me is None or not getattr(tl, "in_handler", False):
+            return
+        st["n"][me] += 1
+        other = "B" if me == "A" else "A"
+        kk = k1 if me == "A" else k2
+        want_phase = 0 if me == "A" else 1
+        if st["phase"] == want_phase and not st["armed"][me] and st["n"][me] >= kk:
+            st["armed"][me] = True
+        if st["phase"] == want_phase and st["armed"][me] and not conn.in_transaction and sql not in ("COMMIT", "ROLLBACK") and not st["done"][other]:
+            st["phase"] += 1
+            st["at1" if me == "A" else "at2"] = st["n"][me]
+            st["switched"] = True
+            give(other)
+            wait_turn(me)
+
+    orig_handle = w.processor._handle_message
+
+    def run(me: str, row: dict[str, Any]) -> None:
+        tl.me = me
+        tl.in_handler = False
+        wait_turn(me)
+        try:
+            # poll + handle + ack by this thread, on this thread's own connection
+            def handle(message: Any) -> None:
+                tl.in_handler = True
+                try:
+                    orig_handle(message)
+                finally:
+                    tl.in_handler = False
+
+            w.processor._handle_message = handle  # type: ignore[method-assign]  (same function for both threads; the flag is thread-local)
+            w.deliver(row["id"])
+        except BaseException as e:  # noqa: BLE001
+            st["errors"].append("%s: %s: %s" % (me, type(e).__name__, str(e)[:160]))
+        finally:
+            st["done"][me] = True
+            other = "B" if me == "A" else "A"
+            give(other if not st["done"][other] else "main")
+
+    HOOKS.on_statement = hook
+    ta = threading.Thread(target=run, args=("A", arow), daemon=True)
+    tb = threading.Thread(target=run, args=("B", brow), daemon=True)
+    try:
+        tb.start()
+        ta.start()
+        ta.join(timeout=120)
+        tb.join(timeout=120)
+        if ta.is_alive() or tb.is_alive():
+            st["errors"].append("scheduler: worker thread did not finish (deadlock)")
+    finally:
+        HOOKS.on_statement = None
+        w.processor._handle_message = orig_handle  # type: ignore[method-assign]
+    return st
